@@ -56,7 +56,7 @@ type World struct {
 // perTask is written only by its own task.
 type perTask struct {
 	op      int
-	side    []string
+	side    []func() string
 	depth   int
 	fired   [8]uint64
 	probes  [8]uint64
@@ -185,7 +185,7 @@ func (w *World) applyFault(kind int, cb, arg string) error {
 			ctx := w.taskCtx[t].NewChild()
 			e, name := w.expr(idx)
 			v, d := e.Value(ctx)
-			pt.side = append(pt.side, fmt.Sprintf("reenter[%s]=%s !%s", name, dumpVal(v), dumpDiags(d)))
+			pt.side = append(pt.side, func() string { return fmt.Sprintf("reenter[%s]=%s !%s", name, dumpVal(v), dumpDiags(d)) })
 			pt.depth--
 		}
 	}
